@@ -94,6 +94,8 @@ func setupFixture() {
 			copy(u.UserID[:], "buddy")
 		case 4:
 			copy(u.UserID[:], "other")
+		case 5:
+			copy(u.UserID[:], "guest")
 		case uidFiller, uidFiller + 1:
 			copy(u.UserID[:], fmt.Sprintf("fill%d", i))
 		}
@@ -143,6 +145,9 @@ func setupFixture() {
 	}
 	if n := cache.NumBoards(); n != 4 {
 		fatalf("board cache holds %d boards, want 4", n)
+	}
+	for k, v := range defaultTable {
+		curTable[k] = v
 	}
 	// the hot-board list holds the target and the control board
 	cache.Shm.Shm.HBcache[0] = bidTarget.ToBidInStore()
@@ -213,7 +218,32 @@ func setRelation(bid ptttype.Bid, uid ptttype.UID, bmCache, friend, named bool, 
 		putFile(filepath.Join(boardDir(boardNames[bid]), ptttype.FN_VISIBLE), []byte(list))
 		cache.HbflReload(idx)
 		friendNow[bid] = want
+		delete(friendOnly, bid)
 	}
+}
+
+var friendOnly = map[ptttype.Bid]string{}
+
+// setFriendOnly arranges the friend file of a board (the listed name, or nobody) and leaves the moderator cache and
+// the moderator string alone.
+func setFriendOnly(bid ptttype.Bid, friend bool, name []byte) {
+	want := "-"
+	if friend {
+		want = string(name)
+	}
+	if v, ok := friendOnly[bid]; ok && v == want {
+		if _, legacy := friendNow[bid]; !legacy {
+			return
+		}
+	}
+	list := ""
+	if friend {
+		list = string(name) + "\n"
+	}
+	putFile(filepath.Join(boardDir(boardNames[bid]), ptttype.FN_VISIBLE), []byte(list))
+	cache.HbflReload(bid.ToBidInStore())
+	friendOnly[bid] = want
+	delete(friendNow, bid)
 }
 
 func mkUser(level uint32, over18 bool, rawID []byte) *ptttype.UserecRaw {
